@@ -426,7 +426,7 @@ def generate(rng, tier, i):
     f = rng.random()
     faults = {"mode": "none"}
     if f < 0.25:
-        faults = ({"mode": "enum_writes", "partial": rng.choice([0.0, 0.5])} if sink == "mem"
+        faults = ({"mode": "enum_writes", "partial": rng.choice([0.0, 0.5]), "err": rng.choice(seams.WRITE_ERRORS)} if sink == "mem"
                   else {"mode": "fsize", "fracs": [rng.random() for _ in range(4)]})
     scn = {
         "ops": ops, "sink": sink,
@@ -986,7 +986,8 @@ class CifEngine(Engine):
                 ctx.probe("crash_points_subsampled")
             fired_any = False
             for k in ks:
-                s2 = seams.SimStringIO(ctx=ctx, fail_at=k, partial=scn["faults"].get("partial", 0.0))
+                s2 = seams.SimStringIO(ctx=ctx, fail_at=k, partial=scn["faults"].get("partial", 0.0),
+                                        err=scn["faults"].get("err", "ENOSPC"))
                 ctx.fault_configured("enospc_at_write_ordinal")
                 _, e2 = self._save_call(op, lib, s2, cif)
                 if not s2.sim_fired:
@@ -1514,7 +1515,7 @@ class CifEngine(Engine):
         hint = (violation or {}).get("hint") or {}
         if "write_k" in hint and s["faults"]["mode"] == "enum_writes":
             c = copy.deepcopy(s)
-            c["faults"] = {"mode": "write_k", "k": hint["write_k"], "save": hint["save"]}
+            c["faults"] = {"mode": "write_k", "err": s["faults"].get("err", "ENOSPC"), "k": hint["write_k"], "save": hint["save"]}
             yield c
         if "fsize_k" in hint and s["faults"]["mode"] == "fsize":
             c = copy.deepcopy(s)
